@@ -79,6 +79,9 @@ def strategy(tier):
     return st.fixed_dictionaries({
         "path": st.lists(st.tuples(st.sampled_from(LINKS), st.booleans()).map(list), min_size=1, max_size=3),
         "ops": st.lists(OP, min_size=1, max_size=15),
+        # deferred=True is how the @on_trait_change decorator registers; every container is still empty when its owner
+        # is hooked (fresh objects at every insertion), so the promised behaviour is the same
+        "deferred": st.sampled_from([False, False, True]),
     })
 
 
@@ -107,7 +110,11 @@ def run(case, ctx):
 
     def h_obs(e):
         B.append((id(e.object), getattr(e, "name", "items")))
-    root.on_trait_change(h_otc, otc_name)
+    if case.get("deferred"):
+        root.on_trait_change(h_otc, otc_name, deferred=True)
+        ctx.label("deferred-registration")
+    else:
+        root.on_trait_change(h_otc, otc_name)
     root.observe(h_obs, obs_name)
     interesting = False
 
@@ -236,4 +243,4 @@ def run(case, ctx):
 
 def stages(tier):
     return [{"name": "hist", "kind": "hyp", "strategy": strategy, "run": run,
-             "examples": {"quick": 6000, "thorough": 400000}, "shards": 16}]
+             "examples": {"quick": 15000, "thorough": 400000}, "shards": 16}]
